@@ -310,9 +310,7 @@ def validate(seed, tier):
     n = 0
     for kind, L, opt in (('spinless', 3, True), ('spinless', 4, False), ('spin', 2, True), ('spin', 2, False)):
         tk = rng.standard_normal((L, L)); vi = rng.standard_normal((L, L, L, L))
-        f = concrete.CHECKS['molecular'](dict(kind=kind, optimize=opt, tkin=tk.tolist(), vint=vi.tolist()))
-        if f:
-            raise runner.HarnessError(f'Fock-space reference disagrees with the unchanged tree ({kind}, L={L}, optimize={opt}): {f}')
+        runner.concrete_check('molecular', dict(kind=kind, optimize=opt, tkin=tk.tolist(), vint=vi.tolist()))
         n += 1
     return dict(concrete_inputs_checked=n)
 
